@@ -37,12 +37,14 @@ let () =
     let (head, j) = split_input inp in
     let (paths, file_of, cfg_s) = match split_str " # " head with
       | [_; p; f; c] -> (Array.of_list (String.split_on_char ',' p),
-                         Array.of_list (List.map int_of_string (String.split_on_char ',' f)), c)
+                         (if p = "-" then [||] else Array.of_list (List.map int_of_string (String.split_on_char ',' f))), c)
       | _ -> failwith "C06.reg: input" in
     let (cfg, tc) = decode_reg_cfg cfg_s in
     let tagged = List.concat (List.mapi (fun i part ->
       match decode_directive part with
-      | Some d -> [({ K.s_path = str_of_string paths.(file_of.(i)); K.s_start = z_of_int i }, d)]
+      | Some d ->
+        let path = if Array.length paths = 1 && paths.(0) = "-" then "-" else paths.(file_of.(i)) in
+        [({ K.s_path = str_of_string path; K.s_start = z_of_int i }, d)]
       | None -> []) (split_str " ; " j)) in
     let model = match K.register_text cfg tc (K.sort_src tagged) with
       | K.COk out -> "OK " ^ esc (string_of_str out)
